@@ -552,6 +552,38 @@ def hBcastLen1 : Handler := handler fun args =>
     pure (.list [SExp.ofNats v.cs, encIntss ((List.range v.cs.length).map (fun b => (List.range (v.cs.getD b 0)).map (v.blk b)))])
   | _ => none
 
+def decGrid (e : SExp) : Option (Grid Int) :=
+  match e with
+  | .list [rc, cc, rows] => do
+    let rc ← rc.toNats?
+    let cc ← cc.toNats?
+    let rows ← (← rows.toList?).mapM SExp.toInts?
+    pure (Grid.ofFn rc cc (fun p q => (rows.getD p []).getD q 0))
+  | _ => none
+
+/-- `(grid_cat op r0 r1 ((rc cc rows)…))` ↦ grid: `hcat` / `vcat` of two arrays, `block` of `[[a, b], [c, d]]`, `tile` by `(r0, r1)` -/
+def hGridCat : Handler := handler fun args =>
+  match args with
+  | [op, r0, r1, gs] => do
+    let r0 ← r0.toNat?
+    let r1 ← r1.toNat?
+    let gs ← (← gs.toList?).mapM decGrid
+    match op, gs with
+    | .sym "hcat", [a, b] => pure (encGrid (a.hcat b))
+    | .sym "vcat", [a, b] => pure (encGrid (a.vcat b))
+    | .sym "block", [a, b, c, d] => pure (encGrid (block2x2 a b c d))
+    | .sym "tile", [a] => pure (encGrid (a.tile r0 r1))
+    | _, _ => none
+  | _ => none
+
+/-- `(pad_const (chunks…) ((block…)…) l r v)` ↦ blocks of the constant pad along one axis -/
+def hPadConst : Handler := handler fun args =>
+  match args with
+  | [cs, blocks, l, r, v] => do
+    let blocks ← (← blocks.toList?).mapM SExp.toInts?
+    pure (encIntss (padConstBlocks (← cs.toNats?) blocks (← l.toNat?) (← r.toNat?) (← v.toInt?)))
+  | _ => none
+
 /-- `(list_op op r ((block…)…))` ↦ blocks of `flip` / `tile` along one axis -/
 def hListOp : Handler := handler fun args =>
   match args with
@@ -924,7 +956,7 @@ def table : List (String × Handler) := [
   ("expand_tuple", hExpandTuple), ("contract_tuple", hContractTuple), ("lower_dim", hLowerDim),
   ("shuffle_plan", hShufflePlan), ("take_plan", hTakePlan),
   ("reshape_rechunk", hReshapeRechunk), ("reshape_check", hReshapeCheck), ("blocks_flat", hBlocksFlat),
-  ("grid_op", hGridOp), ("stack_op", hStackOp), ("bcast_rows", hBcastRows), ("bcast_len1", hBcastLen1), ("list_op", hListOp),
+  ("grid_op", hGridOp), ("stack_op", hStackOp), ("bcast_rows", hBcastRows), ("bcast_len1", hBcastLen1), ("list_op", hListOp), ("grid_cat", hGridCat), ("pad_const", hPadConst),
   ("arange", hArange), ("linspace", hLinspace), ("eye", hEye), ("diag", hDiag),
   ("sf", hSoftFloat), ("arange_f", hArangeF), ("arange_old_lens", hArangeOldLens),
   ("normalize", hNormalize), ("blockdims", hBlockdims), ("intersect1d", hIntersect),
